@@ -13,6 +13,9 @@ import N0Verif.Proofs.Json
   * Part 3: for **every** option record `pretty` produces a rendering of
     `dropEmptyIf o (pairOrder o t)` (`jpretty_ren`), hence `jsonDecode_toJson`.
   * Part 4: `pairOrder` keeps `wf`, and `pyEq` relates the column-ordered tree with the tree.
+  * Part 5: the constructor side — the reader with `object_pairs_hook=n0dict` is the reader followed
+    by `tagN0` (`hook_agree`), `n0dict(text)` / `n0list(text)` (`n0dictOfText_json`, `n0listOfText_json`),
+    exported texts are bracketed and need no `strip()` (`n0dictOfText_toJson`, `n0listOfText_toJson`).
 -/
 namespace N0.Json
 open N0 N0.Py
